@@ -57,7 +57,7 @@ def draw(rng, *, max_states=4, max_controls=3, max_cal=2, max_sensors=3, max_rea
     C = [Symbol(n) for n in names[ns + nu :]]
     dt = Symbol("dt")
     allsyms = S + U + C
-    tags = []
+    tags = ["linear"] if linear else []
     depth = 1 if linear else 2
     shared = _term(rng, allsyms, depth)
     f = {}
